@@ -318,9 +318,7 @@ def decode(d, pdu, diag_any_length=True):
             data = counted(4)
             if len(data) != (count + 7) // 8:
                 raise SpecError('fc15 quantity/byte count')
-            m['bits'] = unpack_bits(data)[:count]
-            if pack_bits(m['bits']) != data:
-                raise SpecError('fc15 padding bits set')    # lenient receivers may accept; spec says zero padded
+            m['bits'] = unpack_bits(data)[:count]          # padding bits of the last byte are ignored by a receiver
         elif fc == 16:
             if len(b) < 5:
                 raise SpecError('short')
